@@ -54,6 +54,8 @@ Record project := mkProj {
   pj_setupdir : string;                 (* abs_setupdir: what is put on sys.path *)
   pj_helpers : list (string * string);  (* helper modules of the project: name, directory *)
   pj_files : list string;               (* its data files that scripts open, relative to the fake root *)
+  pj_damaged : bool;                    (* an archive whose damage only shows when members are read (bad CRC of a
+                                           zip member, tar payload ending inside a member): BadZipFile / ReadError *)
   pj_ops : list sop;
   pj_end : ending }.
 
@@ -208,7 +210,10 @@ Definition analyse (st : pstate) (p : project) : outcome * pstate :=
               let pat := if ctx_restored_in_finally || negb (script_failed || cleanup_raised)
                          then remove_all ctx_patched (g_patched st3) else g_patched st3 in
               let ren := if extractor_state_fresh_per_analysis then g_renames st else g_renames st3 in
-              (mkOut resolved seen reads (script_failed || cleanup_raised) false,
+              (* a damaged archive: the in-process run fails on the member, the fall-back's extract raises the
+                 archive error, which _fetch_from_source reports as MetadataError iff its try covers the analysis *)
+              (mkOut resolved seen reads (script_failed || cleanup_raised || pj_damaged p)
+                     (pj_damaged p && negb archive_errors_cover_analysis),
                mkP (g_cwd st3) (g_path st3) (g_meta st3) (g_modules st3) pat (g_capture st3) ren)
           end
       end
